@@ -696,7 +696,8 @@ def t_base_init(it):
         p.oblige(f"{key}/ensures/valid", z3.And(z3.Not(none_strat), z3.Not(bad_to)), prop=None)
         dl = o["deadline"]
         p.oblige(f"{key}/ensures/deadline-is-rounded-deadline_s",
-                 z3.And(dl.s - kw["deadline_s"].t <= EPS / 2, kw["deadline_s"].t - dl.s <= EPS / 2), prop=None)
+                 z3.And(dl.s - kw["deadline_s"].t <= EPS / 2, kw["deadline_s"].t - dl.s <= EPS / 2) if isinstance(dl, TimeDelta) else False,
+                 prop=None, detail=None if isinstance(dl, TimeDelta) else f"deadline is {dl!r}")
         for f, a in (("classifier", "classifier"), ("result_classifier", "result_classifier"), ("sleep", "sleep"),
                      ("before_sleep", "before_sleep"), ("sleeper", "sleeper"), ("budget", "budget"),
                      ("attempt_timeout_s", "attempt_timeout_s"), ("max_attempts", "max_attempts"),
